@@ -704,6 +704,9 @@ T.atom_eval = _atom_eval
 
 MEM_HANDLERS = ('IADD_M', 'ISUB_M', 'IMUL_M', 'IMULH_M', 'ISMULH_M', 'IXOR_M', 'ISTORE')
 MEM_IMMS = (0, 8, 0x7FF8, 0x3FF8, 0x4000, 0x1FFFF8, 0x200000, 0x7FFFFFFF, 0x80000000, 0xFFFFFFF8, 0xFFFFFFFF, 0x12345678)
+# constant-address form (src == dst): the address is imm32 & L3 mask, and every back-end has encodings that change at a power of two
+# (x86 disp8 at 0x80, RISC-V 12-bit displacement at 0x800, A64 scaled 12-bit offset at 0x8000, ...): every 2^k - 8, 2^k, 2^k + 8
+MEM_IMMS_CONST = tuple(sorted(set(MEM_IMMS) | set(v for k in range(4, 22) for v in ((1 << k) - 8, 1 << k, (1 << k) + 8)) | {0x78, 0xF8, 0x100, 0xFF8, 0x7FF8, 0x8008}))
 
 
 @memoised('X86-MEM-HSEM')
@@ -729,7 +732,7 @@ def rule_mem_hsem(ctx, R):
             for s in range(8):
                 for modmem in (0, 1, 3):
                     for modcond in ((0, 13, 14, 15) if name == 'ISTORE' else (0,)):
-                        imms = MEM_IMMS if s == d or (d + s + modmem) % (3 if getattr(ctx, 'tier', 'quick') == 'thorough' else 7) == 0 else MEM_IMMS[5:7]
+                        imms = (MEM_IMMS_CONST if (modmem == 0 and (d % 3 == 0 or getattr(ctx, 'tier', 'quick') == 'thorough')) else MEM_IMMS[:3]) if (s == d and name != 'ISTORE') else (MEM_IMMS if (d + s + modmem) % (3 if getattr(ctx, 'tier', 'quick') == 'thorough' else 7) == 0 else MEM_IMMS[5:7])
                         for imm in imms:
                             mod = modmem | (modcond << 4)
                             fields = {'dst': KB.const(8, d), 'src': KB.const(8, s), 'mod': KB.const(8, mod)}
